@@ -110,12 +110,13 @@ def run(tier):
     s0 = vlib.seed() * 100
     if quick:
         jobs = [(s0 + 1, dict(nd=2, np=2, copies=2), "mixed", ("killa", "killb", "short"), 3, 3, 3, 2),
-                (s0 + 2, dict(nd=3, np=1, copies=3, splits=[2]), "adds", ("killa", "short"), 3, 2, 0, 1),
+                (s0 + 2, dict(nd=3, np=1, copies=3, splits=[2]), "adds", ("killa", "short"), 3, 2, 0, 2),
                 (s0 + 5, dict(nd=2, np=2, copies=2, splits=[1, 3]), "holes", ("killa",), 1, 3, 0, 0),
                 (s0 + 6, dict(nd=2, np=1, copies=2), "deletes", ("killa",), 1, 4, 0, 0),
                 (s0 + 7, dict(nd=2, np=2, copies=2), "emptydisk", ("killa",), 1, 4, 0, 2),
                 (s0 + 3, dict(nd=2, np=3, copies=1), "mixed", ("killa", "killb"), 3, 4, 4, 1),
-                (s0 + 4, dict(nd=4, np=2, copies=2), "adds", ("killa",), 1, 3, 5, 1)]
+                (s0 + 4, dict(nd=4, np=2, copies=2), "adds", ("killa",), 1, 3, 5, 2),
+                (s0 + 8, dict(nd=2, np=2, copies=2), "adds", (), 1, 0, 0, 4)]
     else:
         jobs = []
         shapes = [dict(nd=2, np=2, copies=2), dict(nd=3, np=1, copies=3, splits=[2]), dict(nd=2, np=3, copies=1), dict(nd=4, np=2, copies=4),
